@@ -544,3 +544,33 @@ Proof.
   replace ((w >? 16383) || (h >? 16383)) with false by lia.
   destruct ha; vm_compute; reflexivity.
 Qed.
+
+(** * 14. the Preprocessing bit set: each bit acts whatever the other bit is *)
+Definition doc_preprocessing_tests : list (Z * Z) := [(1, 1)].
+Lemma preprocessing_tests_match_doc : F.lossy_preprocessing_tests = doc_preprocessing_tests /\ F.dither_mask = 2.
+Proof. split; reflexivity. Qed.
+
+(** For every accepted lossy request: segment smoothing is on iff bit 0 is set (and more than
+    one segment is used), dithering is on iff bit 1 is set - for all four values 0..3, i.e. the
+    documented table 0 = none, 1 = segment smooth, 2 = dithering, 3 = both. *)
+Theorem preprocessing_bits_meaning : forall oo w h ha c a e s m,
+  effective oo w h ha = Ok (ELossy c a e s m) ->
+  0 <= cPreprocessing c <= 3 /\
+  segment_smooth_on c = ((cSegments c >? 1) && ((cPreprocessing c =? 1) || (cPreprocessing c =? 3))) /\
+  dither_on c = ((cPreprocessing c =? 2) || (cPreprocessing c =? 3)).
+Proof.
+  intros oo w h ha c a e s m He.
+  pose proof (validate_complete oo w h ha _ He) as (_ & _ & Hp & _).
+  destruct Hp as (_ & _ & _ & _ & _ & _ & _ & _ & _ & _ & _ & Hprep & Hd1 & Hd2 & _).
+  split; [exact Hprep|].
+  unfold segment_smooth_on, dither_on. change F.lossy_preprocessing_tests with doc_preprocessing_tests.
+  unfold doc_preprocessing_tests. cbn [existsb fst snd]. change (1 =f? 1) with true. cbv iota.
+  assert (Hc : cPreprocessing c = 0 \/ cPreprocessing c = 1 \/ cPreprocessing c = 2 \/ cPreprocessing c = 3) by lia.
+  split.
+  - destruct Hc as [E|[E|[E|E]]]; rewrite E; cbn; rewrite ?orb_false_r, ?andb_true_r, ?andb_false_r; reflexivity.
+  - destruct (cDither c) as [q|] eqn:Ed.
+    + destruct (Hd1 q eq_refl) as [_ Hn].
+      destruct Hc as [E|[E|[E|E]]]; rewrite E in *; cbn in *; try reflexivity; exfalso; apply Hn; reflexivity.
+    + pose proof (Hd2 eq_refl) as Hz.
+      destruct Hc as [E|[E|[E|E]]]; rewrite E in *; cbn in *; try reflexivity; discriminate.
+Qed.
